@@ -18,6 +18,8 @@ Inductive sexpr :=
 | EQueryEscape (a : sexpr)                (* url.QueryEscape(a) *)
 | EJoin (l : lexpr) (sep : string)        (* strings.Join(l, sep) *)
 | EIfNonEmpty (c a b : sexpr)             (* if len(c) > 0 { a } else { b } *)
+| EFixed (a : sexpr) (prec : nat)         (* strconv.FormatFloat(a, 'f', prec, 64) *)
+| ETrimSuffix (a suf : sexpr)             (* strings.TrimSuffix(a, suf) *)
 | EOptInt                                 (* o.n inside an option's apply method *)
 | EOptTime (utc : bool) (layout : string) (* o.t[.UTC()].Format(layout) *)
 with sargs :=
